@@ -195,6 +195,111 @@ theorem qft_forward_cancels_noswap (k : Consts R) (L : k.Laws) (ph : A → R) (a
   rw [qft_inverse_noswap]
   exact h
 
+/-! ### with the register swap: the swap layer is an involution, so the inverse circuit still cancels -/
+section swapcase
+variable {A : Type} {R : Type} [CommRing R]
+
+theorem Bits.swap_comm_disjoint (x : Bits) (a b c d : Nat) (h1 : a ≠ c) (h2 : a ≠ d) (h3 : b ≠ c) (h4 : b ≠ d) :
+    (x.swap a b).swap c d = (x.swap c d).swap a b := by
+  funext r
+  simp only [Bits.swap]
+  grind
+
+theorem appSwap_comm (a b c d : Nat) (h1 : a ≠ c) (h2 : a ≠ d) (h3 : b ≠ c) (h4 : b ≠ d) (ψ : State R) :
+    appSwap a b (appSwap c d ψ) = appSwap c d (appSwap a b ψ) := by
+  funext x
+  simp only [appSwap]
+  rw [Bits.swap_comm_disjoint x a b c d h1 h2 h3 h4]
+
+/-- two swap gates on disjoint pairs -/
+def DisjSwap : QG A → QG A → Prop
+  | .swap a b, .swap c d => a ≠ c ∧ a ≠ d ∧ b ≠ c ∧ b ≠ d
+  | _, _ => False
+
+def IsSwap : QG A → Prop
+  | .swap _ _ => True
+  | _ => False
+
+theorem semG_comm_list (k : Consts R) (ph : A → R) (g : QG A) (l : List (QG A)) (h : ∀ g' ∈ l, DisjSwap g g') (ψ : State R) :
+    semG k ph g (semL k ph l ψ) = semL k ph l (semG k ph g ψ) := by
+  induction l generalizing ψ with
+  | nil => rfl
+  | cons g' l ih =>
+    have hd := h g' List.mem_cons_self
+    have : semL k ph (g' :: l) ψ = semL k ph l (semG k ph g' ψ) := rfl
+    rw [this, ih (fun x hx => h x (List.mem_cons_of_mem _ hx))]
+    have : semL k ph (g' :: l) (semG k ph g ψ) = semL k ph l (semG k ph g' (semG k ph g ψ)) := rfl
+    rw [this]
+    congr 1
+    cases g with
+    | h t => cases g' <;> simp only [DisjSwap] at hd
+    | cp c t a => cases g' <;> simp only [DisjSwap] at hd
+    | swap a b =>
+      cases g' with
+      | h t => simp only [DisjSwap] at hd
+      | cp c t a' => simp only [DisjSwap] at hd
+      | swap c d =>
+        simp only [DisjSwap] at hd
+        simp only [semG]
+        exact appSwap_comm a b c d hd.1 hd.2.1 hd.2.2.1 hd.2.2.2 ψ
+
+/-- a layer of pairwise disjoint swaps applied twice is the identity -/
+theorem swap_layer_involution (k : Consts R) (ph : A → R) (l : List (QG A)) (hs : ∀ g ∈ l, IsSwap g)
+    (hd : l.Pairwise DisjSwap) (ψ : State R) : semL k ph l (semL k ph l ψ) = ψ := by
+  induction l generalizing ψ with
+  | nil => rfl
+  | cons g l ih =>
+    have hpw := List.pairwise_cons.mp hd
+    have e1 : semL k ph (g :: l) ψ = semL k ph l (semG k ph g ψ) := rfl
+    rw [e1]
+    have e2 : semL k ph (g :: l) (semL k ph l (semG k ph g ψ)) = semL k ph l (semG k ph g (semL k ph l (semG k ph g ψ))) := rfl
+    rw [e2, semG_comm_list k ph g l hpw.1, ih (fun x hx => hs x (List.mem_cons_of_mem _ hx)) hpw.2]
+    have := hs g List.mem_cons_self
+    cases g <;> simp only [IsSwap] at this
+    simp only [semG]
+    exact appSwap_appSwap _ _ ψ
+
+theorem getD_inj (qs : List Nat) (hn : qs.Nodup) (i j : Nat) (hi : i < qs.length) (hj : j < qs.length)
+    (h : qs.getD i 0 = qs.getD j 0) : i = j := by
+  have e1 : qs.getD i 0 = qs[i] := by simp [List.getD, List.getElem?_eq_getElem hi]
+  have e2 : qs.getD j 0 = qs[j] := by simp [List.getD, List.getElem?_eq_getElem hj]
+  rw [e1, e2] at h
+  exact (List.Nodup.getElem_inj_iff hn).mp h
+
+theorem swaps_isSwap (qs : List Nat) : ∀ g ∈ (swaps qs : List (QG A)), IsSwap g := by
+  intro g hg
+  simp only [swaps, List.mem_map] at hg
+  obtain ⟨i, _, rfl⟩ := hg
+  trivial
+
+theorem swaps_disjoint (qs : List Nat) (hn : qs.Nodup) : (swaps qs : List (QG A)).Pairwise DisjSwap := by
+  simp only [swaps]
+  rw [List.pairwise_map]
+  have hr : (List.range (qs.length / 2)).Pairwise (· < ·) := List.pairwise_lt_range
+  apply List.Pairwise.imp_of_mem _ hr
+  intro i j hi hj hij
+  have hi' : i < qs.length / 2 := List.mem_range.mp hi
+  have hj' : j < qs.length / 2 := List.mem_range.mp hj
+  simp only [DisjSwap]
+  refine ⟨?_, ?_, ?_, ?_⟩ <;> intro e
+  · have := getD_inj qs hn i j (by omega) (by omega) e; omega
+  · have := getD_inj qs hn i (qs.length - j - 1) (by omega) (by omega) e; omega
+  · have := getD_inj qs hn (qs.length - i - 1) j (by omega) (by omega) e; omega
+  · have := getD_inj qs hn (qs.length - i - 1) (qs.length - j - 1) (by omega) (by omega) e; omega
+
+/-- **inverse option = adjoint, with the register swap**: QFT followed by the `inverse=True` circuit is the
+    identity for every list of distinct qubits, every state, every register size -/
+theorem qft_inverse_cancels_swap (k : Consts R) (L : k.Laws) (ph : A → R) (ang : Nat → A) (neg : A → A)
+    (hph : ∀ a, ph (neg a) * ph a = 1) (qs : List Nat) (hn : qs.Nodup) (ψ : State R) :
+    semL k ph (qft ang neg qs true true) (semL k ph (qft ang neg qs false true) ψ) = ψ := by
+  rw [qft_inverse_swap]
+  have hf : qft ang neg qs false true = rotations ang qs ++ swaps qs := by simp [qft]
+  rw [hf, semL_append, semL_append]
+  rw [swap_layer_involution k ph (swaps qs) (swaps_isSwap qs) (swaps_disjoint qs hn)]
+  exact invList_cancels k L ph neg hph (rotations ang qs) (rotations_wf ang qs hn) ψ
+
+end swapcase
+
 /-- the slip seeded against this property (same order, conjugated angles) is not the inverse list -/
 example : qft (fun j => (j : Int)) (fun a => -a) [0, 1] true false ≠
     (rotations (fun j => (j : Int)) [0, 1]).map (QG.inv (fun a => -a)) := by decide
